@@ -626,6 +626,12 @@ func c04Unicode(c *Ctx, g *load.G) {
 	}
 	sort.Strings(bad)
 	r.Check(len(bad) == 0, "C04-d", "T.rangeTable:lookups", "", "builder/static_code_range_table.go", "Categories, Properties and Scripts are each consulted unconditionally with the class name", strings.Join(bad, "; "))
+	// the name that reaches rangeTable is the name the front-end validated: the class-text parser reads it into a
+	// buffer that holds nothing else
+	if cp := c.classParse(); cp != nil && cp.readLoop != nil {
+		nobj, sbad := scratchBuffersClean(cp.iter)
+		r.Check(len(sbad) == 0, "C04-d", "G.ast.CharClassMatcher.parse:class-name-read-into-clean-buffer", "", c.G().Where(cp.readLoop.Pos()), fmt.Sprintf("%d scratch buffers over %d iteration paths", nobj, len(cp.iter)), strings.Join(uniq(sbad), "; "))
+	}
 }
 
 // unicodeMissing returns the accepted Unicode class names that have no table in the toolchain (err != "" on machinery failure).
